@@ -11,4 +11,7 @@ PP_C == <<PutC(1), PutC(128), PutC(255), PutC(0), Put(127)>>
 CP_C == <<"get", "get", "get", "empty", "get", "get", "get">>
 PP_D == <<Put(1), Put(2), Put(3), Put(4), Put(5), Put(6)>>
 CP_D == <<"get", "empty", "get", "get", "get", "empty", "get", "get">>
+PEmp == [k |-> "empty", d |-> 0]
+PP_E == <<Put(7), PEmp, PutC(9), PEmp, Put(11)>>
+CP_E == <<"get", "empty", "get", "get">>
 =============================================================================
